@@ -17,6 +17,10 @@ class OutOfRange(Unsupported):
     """the analysed code subscripts a sequence outside its bounds on this abstract state"""
 
 
+class _IRet(Exception):
+    """`return` of an inlined helper (K-NORM): leaves the enclosing inlineblock"""
+
+
 class Ret(Exception):
     def __init__(self, v):
         self.v = v
@@ -122,6 +126,13 @@ class Interp:
                 self.stmt(s.get('e'), env)
         elif k == 'return':
             raise Ret(self.expr(s['e'], env) if s.get('e') is not None else None)
+        elif k == 'inlineblock':
+            try:
+                self.stmt(s['body'], env)
+            except _IRet:
+                pass
+        elif k == 'ireturn':
+            raise _IRet()
         elif k == 'null':
             pass
         elif k == 'switch':
@@ -351,25 +362,7 @@ class Interp:
             if op == '()' and e['args'] and SX.is_node(e['args'][0]) and e['args'][0].get('k') == 'ref':
                 lam = self.closure_of(e['args'][0], env)
                 if lam is not None:
-                    lenv = dict(env)
-                    pids = set()
-                    for prm, a in zip(lam['params'], e['args'][1:]):
-                        lenv[prm['id']] = self.expr(a, env)
-                        pids.add(prm['id'])
-                    rv = None
-                    try:
-                        self.stmt(lam['body'], lenv)
-                    except Ret as r:
-                        rv = r.v
-                    # by-reference captures and by-reference parameters: what the closure assigned is visible to the caller
-                    for kk in list(env):
-                        if kk in lenv and kk not in pids:
-                            env[kk] = lenv[kk]
-                    for prm, a in zip(lam['params'], e['args'][1:]):
-                        t = (prm.get('type') or '').strip()
-                        if t.endswith('&') and not t.startswith('const') and SX.is_node(SX.strip(a)) and SX.strip(a).get('k') == 'ref':
-                            self.store(a, lenv[prm['id']], env)
-                    return rv
+                    return self.invoke_closure(lam, e['args'][1:], env)
             if op in ('++', '--') and e['args']:
                 cur = self.expr(e['args'][0], env)
                 new = (cur or 0) + (1 if op == '++' else -1)
@@ -447,6 +440,11 @@ class Interp:
                         if isinstance(ov, Obj):
                             return self.call_fn_env(fs[0], args, {'this': ov})
                 return self.call_fn(fs[0], args)
+            if k == 'call' and not SX.callee(e) and SX.is_node(e.get('calleeExpr')):
+                # call through a closure-valued expression (generic lambdas: `op(a, b)` with op a parameter)
+                cv = self.expr(e['calleeExpr'], env)
+                if isinstance(cv, dict) and cv.get('k') == 'lambda':
+                    return self.invoke_closure(cv, e.get('args', []), env)
             raise Unsupported('call ' + SX.callee(e))
         if k == 'construct':
             t = SX.short_type(e['type'])
@@ -492,6 +490,51 @@ class Interp:
             raise Unsupported('construct ' + e['type'])
         if k == 'initlist':
             rec = self.p.facts.records.get(e['type'])
+            if rec is None and e.get('type') in ('void', '<dependent type>') and len(e.get('items', [])) > 1:
+                # a braced return value inside a generic lambda (`-> Value { return {Value::Type::Int, …}; }`): the target type is
+                # not recorded on the node; it is the one record whose leading field has the type of the leading item
+                it0 = SX.strip(e['items'][0])
+                t0 = it0.get('t') if SX.is_node(it0) else None
+                cands = [r for r in self.p.facts.records.values() if r.get('fields') and len([f_ for f_ in r['fields'] if not f_['static']]) >= len(e['items'])
+                         and [f_ for f_ in r['fields'] if not f_['static']][0]['type'] == t0]
+                items = [it for it in e['items'] if not (SX.is_node(it) and it.get('k') == 'defaultarg')]
+                if t0 and len(cands) > 1:
+                    # several records start with that type: keep those the remaining items fit (a constructor of that shape, or
+                    # aggregate fields whose kinds agree with the items: number ↔ number, string ↔ string)
+                    def kind_(t_):
+                        t_ = (t_ or '').replace('const ', '')
+                        return 's' if 'string' in t_ else ('n' if t_ in ('int', 'long', 'double', 'float', 'bool', 'char', 'unsigned long', 'std::int64_t', 'long long') else '?')
+
+                    def fits(r):
+                        if [c for c in self.p.functions if c.kind == 'ctor' and c.cls == r['name'] and len(c.params) >= len(items) and c.params
+                                and c.params[0].get('type') == t0 and len(c.params) > 1]:
+                            return True
+                        fl = [f_ for f_ in r['fields'] if not f_['static']]
+                        return all(kind_(f_['type']) == kind_(SX.strip(it).get('t') if SX.is_node(SX.strip(it)) else '') != '?' for f_, it in list(zip(fl, items))[1:])
+                    cands = [r for r in cands if fits(r)]
+                if t0 and len(cands) == 1:
+                    rec = cands[0]
+                    ctors = [c for c in self.p.functions if c.kind == 'ctor' and c.cls == rec['name'] and len(c.params) >= len(items) > 1
+                             and c.params and c.params[0].get('type') == t0 and (c.d.get('inits') or c.body)]
+                    o = self.default_struct(rec, env)
+                    if len(ctors) == 1:
+                        # the braces call the record's constructor; parameters not supplied keep their defaults (the member defaults)
+                        c = ctors[0]
+                        cenv = {'this': o}
+                        given = set()
+                        for prm, arg in zip(c.params, items):
+                            cenv[prm['id']] = self.expr(arg, env)
+                            given.add(prm['id'])
+                        for i in c.d.get('inits', []):
+                            refs = {x.get('id') for x in SX.walk(i['init']) if x['k'] == 'ref' and x.get('kind') == 'param'}
+                            if i.get('member') and refs and refs <= given:
+                                o[i['member']] = self.expr(i['init'], cenv)
+                        return o
+                    if not [c for c in self.p.functions if c.kind == 'ctor' and c.cls == rec['name'] and c.params]:
+                        for f_, it in zip([f_ for f_ in rec['fields'] if not f_['static']], items):
+                            o[f_['name']] = self.expr(it, env)
+                        return o
+                    rec = None
             if rec and e.get('fields'):
                 o = self.default_struct(rec, env)
                 for name, it in zip(e['fields'], e['items']):
@@ -514,6 +557,28 @@ class Interp:
         if k == 'lambda':
             return e
         raise Unsupported('expression ' + k + ': ' + SX.show(e)[:60])
+
+    def invoke_closure(self, lam, argexprs, env):
+        """call of a closure (lambda node) in the activation that created it: captures are the shared environment"""
+        lenv = dict(env)
+        pids = set()
+        for prm, a in zip(lam['params'], argexprs):
+            lenv[prm['id']] = self.expr(a, env)
+            pids.add(prm['id'])
+        rv = None
+        try:
+            self.stmt(lam['body'], lenv)
+        except Ret as r:
+            rv = r.v
+        # by-reference captures and by-reference parameters: what the closure assigned is visible to the caller
+        for kk in list(env):
+            if kk in lenv and kk not in pids:
+                env[kk] = lenv[kk]
+        for prm, a in zip(lam['params'], argexprs):
+            t = (prm.get('type') or '').strip()
+            if t.endswith('&') and not t.startswith('const') and SX.is_node(SX.strip(a)) and SX.strip(a).get('k') == 'ref':
+                self.store(a, lenv[prm['id']], env)
+        return rv
 
     def closure_of(self, ref, env):
         v = env.get(ref.get('id'))
